@@ -930,6 +930,8 @@ func runHistory(enc *json.Encoder, rng *rand.Rand, nhist, size int, tmp string) 
 		enc.Encode(obs)
 	}
 	runGrowHistories(enc, rng, variants, pool, srcs, 4+nhist/8)
+	// run-time lookups by name that fail (history4.go): the outcome of a run -- reports, then the failure -- on a used engine
+	runFailingLookups(enc, rng, 3+nhist/300, tmp)
 	// the same (rule set, file) in a process that did everything in the opposite order
 	finishColdChild(enc, cold, variants, srcs, func(vi, fi int) ([]hReport, bool) {
 		r, ok := ref[refKey{vi, fi, 0}]
